@@ -72,7 +72,8 @@ theorem spellItems_well (he : EnvFacts env) {s' : FStack} {fs : Frames} {sc : Sc
     fun a ha' => attrs_valueOK env hn ha'
   have hp := attrTokens_prefixes _ ats ha
   obtain ⟨hdo, hao, hor⟩ := spellItems_facts he hrel inScope (Tree.node (.element name) ks) hdecls hv hp
-  refine ⟨spellItems_pieces inScope false s' _, ?_, ?_, ?_⟩
+  refine ⟨spellItems_pieces inScope false s' _, ?_, ?_, ?_, ?_⟩
+  · rw [hdo]; exact hdecls.not_reserved he
   · rw [hdo]; exact hdecls.keys_nodup he
   · rw [hao]; exact attrs_expanded_nodup he hn (attrTokens_ns_lt he hrel ha)
   · intro a ha' hne
@@ -201,7 +202,10 @@ theorem spellNode_well (he : EnvFacts env) (inScope : List (Nat × Nat)) (n : Tr
     | pi target data =>
       have hl := allNodes_leaf env hn rfl
       subst hl
-      exact ⟨trivial, trivial⟩
+      refine ⟨?_, trivial⟩
+      -- the target is not `xml` in any letter case (`valueOK`)
+      simp only [Tree.value, valueOK, Bool.and_eq_true, bne_iff_ne, ne_eq] at hval
+      simpa [NSNode.Well, isReservedPiTarget, sp0] using hval.1.2
     | element name =>
       obtain ⟨p, ats, content, hcheck, hp, ha, hk, _⟩ := serNode_element_ok env h
       have hnode : nodeOK env (.element name) ks = true := by
